@@ -264,7 +264,7 @@ func Run(ctx *core.Ctx) {
 	if err != nil {
 		ctx.Fatal("%v", err)
 	}
-	pats := patterns(ctx, ctx.Pick(10, 120))
+	pats := patterns(ctx, ctx.Pick(24, 160))
 	var wg sync.WaitGroup
 	sem := make(chan struct{}, 4)
 	for i, p := range pats {
